@@ -37,6 +37,8 @@ pub(crate) struct AssocFileData {
     /// The compiled code of a class is labelled with the class name, so the classes of one
     /// module share a single namespace whatever scope they are declared in.
     class_names: RefCell<HashSet<String>>,
+    /// names this module has exported with `export name: T = ..` so far
+    exported_names: RefCell<HashSet<String>>,
 }
 
 #[derive(Debug, PartialEq, Clone)]
@@ -80,12 +82,18 @@ impl AssocFileData {
             files: files_loaded,
             exports: RefCell::default(),
             class_names: RefCell::default(),
+            exported_names: RefCell::default(),
         }
     }
 
     /// Returns `false` if this module already has a class with this name.
     pub fn register_class_name(&self, name: &str) -> bool {
         self.class_names.borrow_mut().insert(name.to_owned())
+    }
+
+    /// Returns `false` if this module has already exported a variable with this name.
+    pub fn register_exported_name(&self, name: &str) -> bool {
+        self.exported_names.borrow_mut().insert(name.to_owned())
     }
 
     pub fn file_manager(&self) -> &FileManager {
